@@ -338,6 +338,33 @@ def g_value_funnel(out):
                                 where = '%s.%s' % (getattr(cls, 'name', '<module>'), fn.name)
                                 if not (rel == 'pyasn1/type/base.py' and where == 'SimpleAsn1Type.__init__'):
                                     sites.append('%s:%d %s' % (rel, y.lineno, where))
+    # ... and there is no way around the constructor: no object of a type class is made by __new__ / copy / by
+    # writing an instance __dict__ (the arithmetic, slicing and conversion methods all `return self.clone(...)`, which
+    # is under contract type.base::SimpleAsn1Type.clone: the result is built by the class constructor)
+    bypass, m = [], 0
+    for path in sorted(glob.glob(os.path.join(REPO, 'pyasn1', 'type', '*.py'))):
+        rel = os.path.relpath(path, REPO)
+        tree = ast.parse(open(path).read())
+        # the NoValue sentinel (a singleton that is not an ASN.1 type) creates its one instance with object.__new__
+        tree.body = [n for n in tree.body if not (isinstance(n, ast.ClassDef) and n.name == 'NoValue')]
+        for x in ast.walk(tree):
+            if isinstance(x, ast.Call):
+                m += 1
+                nm = ast.unparse(x.func)
+                if nm.endswith('__new__') or nm in ('copy.copy', 'copy.deepcopy', 'copy', 'deepcopy') or \
+                        nm.endswith('__setstate__') or nm.endswith('__reduce__'):
+                    bypass.append('%s:%d %s' % (rel, x.lineno, nm))
+            if isinstance(x, (ast.Assign, ast.AugAssign)):
+                for t in (x.targets if isinstance(x, ast.Assign) else [x.target]):
+                    for y in ast.walk(t):
+                        if isinstance(y, ast.Attribute) and y.attr == '__dict__' and isinstance(y.ctx, ast.Store):
+                            bypass.append('%s:%d assigns __dict__' % (rel, y.lineno))
+                        if isinstance(y, ast.Subscript) and isinstance(y.value, ast.Attribute) and \
+                                y.value.attr == '__dict__' and ast.unparse(y.slice) in ("'_value'", '"_value"'):
+                            bypass.append('%s:%d writes __dict__[_value]' % (rel, y.lineno))
+    ob(out, 'frame::types#no-constructor-bypass', not bypass and m > 100,
+       '; '.join(bypass[:6]) or '%d calls in pyasn1/type/*.py, none of __new__/copy/deepcopy/__setstate__; no write to an '
+                                'instance __dict__[_value]' % m, witness={'sites': bypass}, n=m)
     sites = sorted(set(sites))
     ob(out, 'frame::types#value-assigned-only-in-init', not sites and n >= 1,
        '; '.join(sites[:6]) or '%d assignment(s) to ._value in pyasn1/, all in SimpleAsn1Type.__init__' % n,
